@@ -244,8 +244,8 @@ def run(ctx):
         Pk, Ck = c03.kuhn(rng, *dims)
         shapes.append(("K", Pk, [], Ck))
     cases = []
-    reps = 10 if thorough else 6
-    nev = 50 if thorough else 35
+    reps = 24 if thorough else 6
+    nev = 60 if thorough else 35
     for name, P, F, C in shapes:
         for rep in range(reps):
             # images under a motion and a renumbering: the definitions do not care
